@@ -265,6 +265,39 @@ class Collector:
                     notes=self.notes)
 
 
+def in_forked_child(fn, timeout=600):
+    """Run fn() in a forked child and return its (picklable) result: each realised history gets a process
+    of its own, so process-wide state one history leaves behind (lru_caches, class-level memos, module
+    globals) cannot leak into the next one.  Exceptions are re-raised in the parent as RuntimeError."""
+    import pickle
+    r, w = os.pipe()
+    pid = os.fork()
+    if pid == 0:
+        code = 0
+        try:
+            os.close(r)
+            try:
+                payload = pickle.dumps(('ok', fn()))
+            except BaseException as e:   # noqa
+                payload = pickle.dumps(('exc', f'{type(e).__name__}: {e}'))
+            with os.fdopen(w, 'wb') as f:
+                f.write(payload)
+        except BaseException:            # noqa
+            code = 1
+        finally:
+            os._exit(code)
+    os.close(w)
+    with os.fdopen(r, 'rb') as f:
+        data = f.read()
+    os.waitpid(pid, 0)
+    if not data:
+        raise RuntimeError('forked child produced no result')
+    kind, val = pickle.loads(data)
+    if kind == 'exc':
+        raise RuntimeError(val)
+    return val
+
+
 def _run_worker(args):
     modname, fname, config, kwargs = args
     t0 = time.time()
